@@ -33,7 +33,7 @@ import (
 // of it sleeping) on an engine opened with ExpireInterval 20..60 ms on a MemoryStore or a FileStore (temp
 // dir on tmpfs or on disk, removed afterwards):
 //
-//	(1) insert: thirteen collections in three databases — TTL 1 s; TTL 2 s + ordinary, unique and partial
+//	(1) insert: twelve collections in three databases — TTL 1 s; TTL 2 s + ordinary, unique and partial
 //	    indexes; TTL 0 s; two TTL indexes (1 s and 2 s on two fields); TTL on a dotted path (sub-documents and
 //	    arrays of sub-documents); a TTL index that is dropped again; collections WITHOUT a TTL index that
 //	    carry the same-named date fields (ordinary index on the date field / no index); the same collection
